@@ -160,6 +160,20 @@ def run_case_c07(acc, c, replaying=False):
         g = d.executor(**kw).graph
         acc.evaluations += 1
         compare(acc, c, f"executor({kw}).graph", dict(g.compound_priority), want, set(g.nodes))
+    # ---- a DAG derived by compose(): node 0 becomes an input, everything else is kept
+    if len(ids) >= 2:
+        import warnings
+        with warnings.catch_warnings():
+            warnings.simplefilter("ignore")
+            try:
+                comp = d.compose("comp", [ids[0]], ids[1:])
+            except ValueError:
+                comp = None
+        if comp is not None:
+            acc.evaluations += 1
+            compare(acc, c, "compose([n0], rest).graph_ids", dict(comp.graph_ids.compound_priority), {k: v for k, v in want.items() if k != ids[0]})
+            g2 = comp.executor().graph
+            compare(acc, c, "compose([n0], rest).executor().graph", dict(g2.compound_priority), {k: v for k, v in want.items() if k != ids[0]}, set(g2.nodes))
     # ---- unique reproducible order with max_concurrency=1 and no ties
     n_all = set(range(len(p.nodes)))
     go = greedy_order(p, n_all)
@@ -182,7 +196,7 @@ def run_case_c07(acc, c, replaying=False):
         if got != go:
             acc.violation(V("mc1_order", f"executor({kw}) max_concurrency=1 entry order {got}, reference order {go}", via="executor"), c, (), res.trace, p.source())
     # ---- reconfiguration recomputes
-    newp = [(-x if x else 1) + (i % 2) for i, x in enumerate(c["prio"])]
+    newp = [0 if (x and i % 2) else ((-x if x else 1) + (i % 2)) for i, x in enumerate(c["prio"])]  # incl. non-zero -> 0
     d.config_from_dict({"nodes": {ids[i]: {"priority": newp[i]} for i in range(len(ids))}})
     acc.evaluations += 1
     compare(acc, c, "after config_from_dict", dict(d.graph_ids.compound_priority), ref_table(p, newp))
